@@ -216,6 +216,13 @@ def explore(task):
     out = {'n': 0, 'keys': [], 'outcomes': {}, 'viol': [], 'profiles': {}}
 
     def rec(path):
+        if task.get('skip_own') and len(path) == len(prefix):
+            # the prefix itself belongs to another task: only decide whether to extend it
+            viol, outcome, prof = check_seq(srckind, path, ns[:1])
+            if outcome != 'rejected' and not viol:
+                for s in SIGMA:
+                    rec(path + [s])
+            return
         viol, outcome, prof = check_seq(srckind, path, ns)
         out['n'] += len(ns)
         out['outcomes'][outcome] = out['outcomes'].get(outcome, 0) + 1
@@ -243,8 +250,10 @@ def run(run):
         if depth == 2:
             tasks += [{'src': k, 'prefix': [s], 'depth': 2, 'sizes': ns} for s in SIGMA]
         else:
-            tasks += [{'src': k, 'prefix': [s], 'depth': 1, 'sizes': ns} for s in SIGMA]
-            tasks += [{'src': k, 'prefix': [s, t], 'depth': 3, 'sizes': ns} for s in SIGMA for t in SIGMA]
+            # sequences of length <=2 on every size (incl. 10^4); length 3 on the two ends of the small sizes
+            tasks += [{'src': k, 'prefix': [s], 'depth': 2, 'sizes': ns} for s in SIGMA]
+            tasks += [{'src': k, 'prefix': [s, t, u], 'depth': 3, 'sizes': [150, 1200]} for s in SIGMA for t in SIGMA for u in SIGMA[:0]]
+            tasks += [{'src': k, 'prefix': [s, t], 'depth': 3, 'sizes': [150, 1200], 'skip_own': True} for s in SIGMA for t in SIGMA]
     j = run.seed % len(tasks)
     tasks = tasks[j:] + tasks[:j]
     profiles = {}
